@@ -533,6 +533,32 @@ fn emit_cli_no_extends(sink: &mut Sink, r: &mut Rng) {
     } else if rc3 != rc4 {
         pred = format!("FAIL `--no-extends config validate` exits {rc3}, validating the leaf alone exits {rc4}");
     }
+    // the same with a configuration that is discovered (no -c): two projects with the same
+    // sources, one holding the leaf (its base one level up), one holding the leaf without `extends`
+    if pred == "ok" {
+        for (proj, cfg) in [("proj", "leaf.toml"), ("alone", "alone.toml")] {
+            std::fs::create_dir_all(dir.join(proj).join("src")).unwrap();
+            let text = std::fs::read_to_string(dir.join(cfg)).unwrap().replace("\"base.toml\"", "\"../base.toml\"");
+            std::fs::write(dir.join(proj).join(".sloc-guard.toml"), text).unwrap();
+            for (k, n) in [3usize, 40, 700].iter().enumerate() {
+                std::fs::write(dir.join(proj).join(format!("src/f{k}.rs")), "let x = 1;\n".repeat(*n)).unwrap();
+            }
+        }
+        let run_in = |proj: &str, args: &[&str]| {
+            let o = std::process::Command::new(&bin).args(args).current_dir(dir.join(proj)).env("NO_COLOR", "1").output().expect("run sloc-guard");
+            (o.status.code().unwrap_or(-1), String::from_utf8_lossy(&o.stdout).into_owned(), String::from_utf8_lossy(&o.stderr).lines().next().unwrap_or("").to_string())
+        };
+        for cmd in [vec!["check", "--no-sloc-cache", "--format", "json", "."], vec!["stats", "summary", "--no-sloc-cache", "--format", "json", "."], vec!["config", "show", "--format", "json"]] {
+            let mut with = vec!["--no-extends"];
+            with.extend(cmd.iter());
+            let (rc_a, out_a, err_a) = run_in("proj", &with);
+            let (rc_b, out_b, err_b) = run_in("alone", &cmd);
+            if rc_a != rc_b || strip(&out_a) != strip(&out_b) {
+                pred = format!("FAIL `--no-extends {}` on a discovered configuration (exit {rc_a} {err_a}) differs from the leaf alone (exit {rc_b} {err_b})", cmd.join(" "));
+                break;
+            }
+        }
+    }
     let _ = std::fs::remove_dir_all(&dir);
     sink.push(Case {
         request: "noop".to_string(),
